@@ -305,7 +305,7 @@ class _HData(Hooks):
             obj.fields['deformed'] = a[0] if a else None
             self.events.append(('deform', a[0] if a else None))
             return None
-        return Tagged(name, *a)
+        return _representation(name, *a)
 
     def _decode(self, obj, a):
         self.events.append(('decode', a[0] if a else None))
@@ -343,6 +343,14 @@ class _HData(Hooks):
         if isinstance(obj, _Lst):
             return obj.pqv_getitem(idx)
         return NOT_HANDLED
+
+
+def _representation(name, loc=None, rotated=False, *rest):
+    """What code.qubit_representation / stabilizer_representation hand back: a dictionary whose every entry belongs to
+    THIS location and picture (the library computes object, colour, length, location per location)."""
+    return {'object': Tagged(name + '.object', loc, rotated), 'location': Tagged(name + '.location', loc, rotated),
+            'params': {'axis': Tagged(name + '.axis', loc), 'length': Tagged(name + '.length', loc, rotated)},
+            'color': Tagged(name + '.color', loc, rotated)}
 
 
 def _r204(ctx: Ctx, gmi, tables) -> None:
@@ -388,36 +396,51 @@ def _r204(ctx: Ctx, gmi, tables) -> None:
                        'rotated_picture': rot}
                 fn, outs = run_handler('send_code_data', req)
                 site = site_of(gmi, fn)
-                ctx.need(len(outs) == 1, 'R20.4', site, f'send_code_data: {outs!r}')
-                o = outs[0]
+                ctx.need(len(outs) >= 1, 'R20.4', site, f'send_code_data: {outs!r}')
                 bad = None
-                if o.kind != 'return':
-                    bad = f'raises {o.exc}'
-                else:
-                    v, ev = o.value
-                    dname = None if deformation == 'None' else deformation
-                    cls = codes[gui_name].ci.name
-                    want_args = [3, 4] if dims == 2 else [3, 4, 5]
-                    ce = [e for e in ev if e[0] == 'code']
-                    if len(ce) != 1 or ce[0][1] != cls or ce[0][2] != want_args:
-                        bad = f'code instantiated as {ce!r}, expected {cls}{tuple(want_args)}'
-                    de = [e for e in ev if e[0] == 'deform']
-                    if (dname is None and de) or (dname is not None and [e[1] for e in de] != [dname]):
-                        bad = f'deform calls {de!r} for requested deformation {deformation!r}'
-                    reads = [e for e in ev if e[0] == 'read']
-                    if any(e[2] != dname for e in reads):
-                        bad = 'matrix/logicals read before the deformation was applied'
-                    if not isinstance(v, dict):
-                        bad = f'response {v!r}'
+                for o in outs:                # every path the handler can take (e.g. per value of qubit_axis)
+                    if bad is not None:
+                        break
+                    if o.kind != 'return':
+                        bad = f'raises {o.exc}'
                     else:
-                        exp = {'H': Tagged('list', ('stabilizer_matrix', dname)),
-                               'logical_x': Tagged('list', ('logicals_x', dname)),
-                               'logical_z': Tagged('list', ('logicals_z', dname)),
-                               'qubits': [Tagged('qubit_representation', q, rot) for q in ('q0', 'q1')],
-                               'stabilizers': [Tagged('stabilizer_representation', s, rot) for s in ('s0', 's1', 's2')]}
-                        for k, w in exp.items():
-                            if v.get(k) != w:
-                                bad = f"response['{k}'] = {v.get(k)!r}, expected {w!r}"
+                        v, ev = o.value
+                        dname = None if deformation == 'None' else deformation
+                        cls = codes[gui_name].ci.name
+                        want_args = [3, 4] if dims == 2 else [3, 4, 5]
+                        ce = [e for e in ev if e[0] == 'code']
+                        if len(ce) != 1 or ce[0][1] != cls or ce[0][2] != want_args:
+                            bad = f'code instantiated as {ce!r}, expected {cls}{tuple(want_args)}'
+                        de = [e for e in ev if e[0] == 'deform']
+                        if (dname is None and de) or (dname is not None and [e[1] for e in de] != [dname]):
+                            bad = f'deform calls {de!r} for requested deformation {deformation!r}'
+                        reads = [e for e in ev if e[0] == 'read']
+                        if any(e[2] != dname for e in reads):
+                            bad = 'matrix/logicals read before the deformation was applied'
+                        if not isinstance(v, dict):
+                            bad = f'response {v!r}'
+                        else:
+                            exp = {'H': Tagged('list', ('stabilizer_matrix', dname)),
+                                   'logical_x': Tagged('list', ('logicals_x', dname)),
+                                   'logical_z': Tagged('list', ('logicals_z', dname)),
+                                   'qubits': [_representation('qubit_representation', q, rot) for q in ('q0', 'q1')],
+                                   'stabilizers': [_representation('stabilizer_representation', s_, rot) for s_ in ('s0', 's1', 's2')]}
+                            def lib_only(d):
+                                # the entries only the library can compute for a location (shape, colour, length)
+                                if not isinstance(d, dict):
+                                    return d
+                                return (d.get('object'), d.get('color'), (d.get('params') or {}).get('length')
+                                        if isinstance(d.get('params'), dict) else d.get('params'))
+                            for k, w in exp.items():
+                                g_ = v.get(k)
+                                if k in ('qubits', 'stabilizers') and isinstance(g_, list) and len(g_) == len(w):
+                                    for i_, (a_, b_) in enumerate(zip(g_, w)):
+                                        if lib_only(a_) != lib_only(b_):
+                                            bad = (f"response['{k}'][{i_}] carries {lib_only(a_)!r}: shape / colour / length of "
+                                                   f"another location or picture, expected {lib_only(b_)!r}")
+                                            break
+                                elif g_ != w:
+                                    bad = f"response['{k}'] = {g_!r}, expected {w!r}"
                 ctx.ob('R20.4', site, f'send_code_data("{gui_name}", deformation={deformation}, rotated={rot}): H/logicals of '
                                       f'the same instance, index order, requested picture', bad is None, bad or '',
                        key=f'send_code_data|{gui_name}|{deformation}|{rot}')
@@ -495,6 +518,37 @@ def _r204(ctx: Ctx, gmi, tables) -> None:
                         bad = bad or f"response x={v['x']!r}, z={v['z']!r}; expected the first / second half of decode()"
             ctx.ob('R20.4', site, f'send_correction(decoder="{dname}", noise deformation={noise_def})', bad is None, bad or '',
                    key=f'send_correction|{dname}|{noise_def}')
+    # every offered noise direction x noise deformation: the model is built from exactly the requested pair, for the
+    # decode request and for the new-errors request (a shortcut that is right for X<->Z swaps is wrong for 'XY')
+    defs_offered = sorted({'None', 'XZZX', 'XY', 'XXZZ', 'X3Z3'})
+    for em_name, direction in sorted(noise.items()):
+        for noise_def in defs_offered:
+            for handler in ('send_correction', 'send_random_errors'):
+                req = {'Lx': 3, 'Ly': 3, 'Lz': 3, 'code_name': 'Toric 2D', 'code_deformation_name': 'None',
+                       'syndrome': [0, 1, 0], 'p': 0.07, 'noise_deformation_name': noise_def, 'max_bp_iter': 11,
+                       'alpha': 0.3, 'beta': 0.2, 'decoder': sorted(decoders)[0], 'error_model': em_name}
+                fn, outs = run_handler(handler, req)
+                rets = [o for o in outs if o.kind == 'return']
+                bad = None
+                if not rets:
+                    bad = f'{outs!r}'
+                for o in rets:
+                    ne = [e for e in o.value[1] if e[0] == 'noise']
+                    wdef = None if noise_def == 'None' else noise_def
+                    got_def = (ne[0][2][3:] + [ne[0][3].get('deformation_name')])[0] if len(ne) == 1 else '?'
+                    # dropping a deformation is harmless exactly when the direction is invariant under the swap it
+                    # performs: 'XY' exchanges Y and Z, every other advertised name exchanges X and Z on a subset of
+                    # the qubits (the tables are decided by C08 R08.1)
+                    rx_, ry_, rz_ = direction
+                    invariant = (ry_ == rz_) if noise_def == 'XY' else (rx_ == rz_)
+                    if len(ne) == 1 and ne[0][2][:3] == list(direction) and got_def is None and invariant:
+                        continue
+                    if len(ne) != 1 or ne[0][2][:3] != list(direction) or got_def != wdef:
+                        bad = (f'noise model built as {ne!r}; the request names direction {list(direction)} and noise '
+                               f'deformation {wdef!r}')
+                ctx.ob('R20.4', site_of(gmi, fn), f'{handler}: noise model = PauliErrorModel(direction of "{em_name}", '
+                                                  f'deformation {noise_def})', bad is None, bad or '',
+                       key=f'{handler}|noise[{em_name}|{noise_def}]')
     # decode histories: the decoder built for a request is the one a fresh server would build, whatever decoder the
     # previous request used (options of one decoder must not leak into the next constructor call)
     def dreq(name):
